@@ -443,6 +443,10 @@ def get_attr(I, obj, name):
         if I.spec_mode == 0 and I.decide(Val.is_none(h), 'no-__html__'):
             raise Raised(VExc(AttributeError, [VStr(name)]))
         return VAny(h)
+    if isinstance(obj, VAny) and 'k3' in I.ghost and I.spec_mode == 0:
+        used('attribute of an opaque object (uninterpreted)')
+        f = z3.Function('attr_' + name, Val, Val)
+        return VAny(f(obj.t))
     if isinstance(obj, VAny) and I.spec_mode and name in ('pos', 'source', 'filename'):
         tk = wrap(Ty('Token'), Val.t(obj.t))
         return get_attr(I, tk, name)
@@ -930,14 +934,16 @@ def apply(I, fv, args, kwargs, callnode=None):
         if isinstance(o, Closure):
             return I.call_closure(o, args, kwargs)
         return builtin(I, o, args, kwargs, callnode)
-    if isinstance(fv, VAny) and not args and not kwargs:
+    if isinstance(fv, VAny) and not args and not kwargs and 'k3' not in I.ghost:
         used('call of an opaque object (uninterpreted result)')
         return VAny(f_call0(fv.t))
-    if isinstance(fv, VAny) and 'handler_calls' in I.ghost:
-        # K3: the only opaque callable the emitted code calls with arguments is the handler
-        I.ghost['handler_calls'].append(args)
-        I.ghost['T'].append(('handler',))
-        return fresh(Ty('any'), 'handler_result')
+    if isinstance(fv, VAny) and 'k3' in I.ghost:
+        h = I.ghost.get('handler')
+        if h is not None and fv.t.eq(h.t):
+            I.ghost['handler_calls'].append(args)
+            I.ghost['T'].append(('handler',))
+            return fresh(Ty('any'), 'handler_result')
+        return I.ghost['k3'].external_call(I, fv, args, kwargs)
     raise Unsupported('call of %r' % (fv,))
 
 
@@ -1089,6 +1095,9 @@ def builtin(I, o, args, kwargs, callnode):
         raise Unsupported('sorted of symbolic')
     if isinstance(o, type) and o.__name__ == 'Token':
         return make_token(I, args, kwargs)
+    import typing as _typing
+    if o is _typing.cast:
+        return args[1]
     if isinstance(o, type) and o.__name__ == 'OrderedDict' and not args:
         return VDict()
     r = I.vc.call_real(I, o, args, kwargs, callnode)
@@ -1345,6 +1354,17 @@ def method(I, recv, name, args, kwargs, callnode=None, unbound=None):
     raise Unsupported('method %s on %r' % (name, recv))
 
 
+def str_arg(I, v):
+    """a string-typed argument that may be dynamically typed"""
+    from .interp import Raised
+    if isinstance(v, VAny):
+        t = v.t
+        if I.spec_mode == 0 and not I.decide(z3.Or(Val.is_str(t), Val.is_tok(t)), 'arg-is-str'):
+            raise Raised(VExc(TypeError, [VStr('must be str')]))
+        return z3.If(Val.is_tok(t), TokenSort.s(Val.t(t)), Val.s(t))
+    return strterm(v)
+
+
 def _strs(I, v):
     """a str-or-tuple-of-str argument -> list of z3 strings"""
     if isinstance(v, VTuple):
@@ -1370,7 +1390,7 @@ def str_method(I, s, name, args, kwargs):
         f = z3.PrefixOf if name == 'startswith' else z3.SuffixOf
         return VBool(z3.Or([f(p, s2) for p in ps]))
     if name in ('find', 'index'):
-        sub = strterm(args[0])
+        sub = str_arg(I, args[0])
         start = norm_bound(args[1], n, z3.IntVal(0)) if len(args) > 1 else z3.IntVal(0)
         if len(args) > 2:
             raise Unsupported('find with end')
@@ -1440,7 +1460,11 @@ def str_method(I, s, name, args, kwargs):
         for i, x in enumerate(items):
             if i:
                 parts.append(s)
-            parts.append(strterm(x))
+            if isinstance(x, VAny):
+                from .k3 import KText
+                parts.append(KText.piece_text(x))
+            else:
+                parts.append(strterm(x))
         if not parts:
             return VStr('')
         return VStr(z3.Concat(*parts) if len(parts) > 1 else parts[0])
@@ -1581,80 +1605,89 @@ def encode_model(I, s, args, kwargs):
 def split_model(I, s, name, args, kwargs):
     """str.split / rsplit.  Result: VSeq[str] `parts` with ghost offset function `off`:
        parts[i] == s[off(i) : off(i)+len(parts[i])], consecutive parts separated by exactly
-       `sep` (explicit separator) or by a non-empty whitespace run (sep None)."""
+       `sep` (explicit separator) or by a non-empty whitespace run (sep None).
+       The per-index facts are available as `facts(i)` (prim split_facts) and, unless the
+       contract sets models['str.split.quantified'] = False, also asserted for all i."""
     sep = args[0] if args else kwargs.get('sep', NONE)
     if isinstance(sep, VOpt) and I.spec_mode == 0:
         sep = NONE if I.decide(sep.none, 'split-sep-none') else sep.val
     maxsplit = args[1] if len(args) > 1 else kwargs.get('maxsplit', VInt(-1))
     ms = z3.simplify(as_int(maxsplit))
     elem = Ty(I.vc.model_option('str.split.elem', 'str'))
+    quantified = I.vc.model_option('str.split.quantified', True)
     tag = fresh_name('split')
     parts = z3.Const(tag, z3.SeqSort(z3.StringSort()))
     off = z3.Function(tag + '_off', z3.IntSort(), z3.IntSort())
     n = z3.Length(parts)
-    i = z3.Int(tag + '_i')
     ln = z3.Length(s)
-    pi = parts[i]
     unlimited = z3.is_int_value(ms) and ms.as_long() < 0
-    if isinstance(sep, VNone) or (isinstance(sep, VOpt) and z3.is_true(z3.simplify(sep.none))):
+    anyparts = z3.Const(tag + '_any', z3.SeqSort(Val)) if elem.name == 'any' else None
+    if anyparts is not None:
+        I.assume(z3.Length(anyparts) == n)
+    ws_mode = isinstance(sep, VNone) or (isinstance(sep, VOpt) and z3.is_true(z3.simplify(sep.none)))
+    if ws_mode:
         if name == 'rsplit' and not unlimited:
             raise Unsupported('rsplit(None, n)')
-        I.assume(n >= 0)
-        I.assume(z3.ForAll([i], z3.Implies(z3.And(i >= 0, i < n), z3.And(
-            z3.Length(pi) > 0, off(i) >= 0, off(i) + z3.Length(pi) <= ln,
-            z3.SubString(s, off(i), z3.Length(pi)) == pi,
-            z3.Implies(i + 1 < n, off(i + 1) > off(i) + z3.Length(pi)),
-            z3.Not(z3.InRe(z3.SubString(pi, 0, 1), ws_re())),
-        ))))
-        I.assume(z3.Implies(n == 0, z3.InRe(s, z3.Star(ws_re()))))
-        I.assume(z3.Implies(n > 0, z3.InRe(z3.SubString(s, 0, off(0)), z3.Star(ws_re()))))
-        sepinfo = None
+        st = sl = None
     else:
         if isinstance(sep, VOpt):
             raise Unsupported('split with a maybe-None separator')
         st = strterm(sep)
         sl = z3.Length(st)
-        if name == 'rsplit' and not unlimited:
-            # rsplit(sep, k): only the shape is modelled: the last part has no separator
-            # when k >= 1 ... keep it abstract but tiled
-            pass
+
+    def facts(i):
+        pi = parts[i]
+        fs = [off(i) >= 0, off(i) + z3.Length(pi) <= ln,
+              z3.SubString(s, off(i), z3.Length(pi)) == pi]
+        if ws_mode:
+            fs += [z3.Length(pi) > 0,
+                   z3.Implies(i + 1 < n, off(i + 1) > off(i) + z3.Length(pi)),
+                   z3.Not(z3.InRe(z3.SubString(pi, 0, 1), ws_re())),
+                   # WSFIND (trusted, conformance-tested): searching for a part from the end
+                   # of the previous part finds exactly that part
+                   z3.IndexOf(s, pi, z3.If(i == 0, z3.IntVal(0),
+                                           off(i - 1) + z3.Length(parts[i - 1]))) == off(i)]
+        else:
+            fs += [off(i + 1) == off(i) + z3.Length(pi) + sl,
+                   z3.Implies(i + 1 < n, z3.SubString(s, off(i) + z3.Length(pi), sl) == st)]
+        if anyparts is not None:
+            fs.append(anyparts[i] == Val.str(pi))
+        return z3.Implies(z3.And(i >= 0, i < n), z3.And(*fs))
+
+    i = z3.Int(tag + '_i')
+    if quantified:
+        I.assume(z3.ForAll([i], facts(i)))
+    if ws_mode:
+        I.assume(n >= 0)
+        I.assume(z3.Implies(n == 0, z3.InRe(s, z3.Star(ws_re()))))
+        I.assume(z3.Implies(n > 0, z3.InRe(z3.SubString(s, 0, off(0)), z3.Star(ws_re()))))
+    else:
         I.assume(n >= 1)
         I.assume(off(0) == 0)
-        I.assume(z3.ForAll([i], z3.Implies(z3.And(i >= 0, i < n), z3.And(
-            off(i) >= 0, off(i) + z3.Length(pi) <= ln,
-            z3.SubString(s, off(i), z3.Length(pi)) == pi,
-            z3.Implies(i + 1 < n, z3.And(
-                off(i + 1) == off(i) + z3.Length(pi) + sl,
-                z3.SubString(s, off(i) + z3.Length(pi), sl) == st)),
-        ))))
         I.assume(off(n - 1) + z3.Length(parts[n - 1]) == ln)
         if unlimited:
             I.assume(z3.Implies(z3.Not(z3.Contains(s, st)), n == 1))
             I.assume(z3.Implies(z3.Contains(s, st), n >= 2))
-            if z3.is_string_value(z3.simplify(st)) and len(decode_z3_string(z3.simplify(st).as_string())) == 1:
+            if quantified and z3.is_string_value(z3.simplify(st)) and \
+                    len(decode_z3_string(z3.simplify(st).as_string())) == 1:
                 I.assume(z3.ForAll([i], z3.Implies(z3.And(i >= 0, i < n),
-                                                   z3.Not(z3.Contains(pi, st)))))
+                                                   z3.Not(z3.Contains(parts[i], st)))))
         else:
             I.assume(n <= ms + 1)
-            if name == 'split':
-                I.assume(z3.ForAll([i], z3.Implies(z3.And(i >= 0, i + 1 < n),
-                                                   z3.Not(z3.Contains(pi, st)))))
-                I.assume(z3.Implies(z3.Contains(s, st), n >= 2) if ms.as_long() >= 1 else True)
-            else:
-                I.assume(z3.ForAll([i], z3.Implies(z3.And(i >= 1, i < n),
-                                                   z3.Not(z3.Contains(pi, st)))))
-                I.assume(z3.Implies(z3.Contains(s, st), n >= 2) if ms.as_long() >= 1 else True)
-        sepinfo = st
-    if elem.name == 'any':
-        anyparts = z3.Const(tag + '_any', z3.SeqSort(Val))
-        I.assume(z3.Length(anyparts) == n)
-        I.assume(z3.ForAll([i], z3.Implies(z3.And(i >= 0, i < n), anyparts[i] == Val.str(parts[i]))))
-        r = VSeq(Ty('any'), anyparts)
-    else:
-        r = VSeq(Ty('str'), parts)
+            if ms.as_long() >= 1:
+                I.assume(z3.Implies(z3.Contains(s, st), n >= 2))
+            if quantified:
+                if name == 'split':
+                    I.assume(z3.ForAll([i], z3.Implies(z3.And(i >= 0, i + 1 < n),
+                                                       z3.Not(z3.Contains(parts[i], st)))))
+                else:
+                    I.assume(z3.ForAll([i], z3.Implies(z3.And(i >= 1, i < n),
+                                                       z3.Not(z3.Contains(parts[i], st)))))
+    r = VSeq(Ty('any'), anyparts) if anyparts is not None else VSeq(Ty('str'), parts)
     r.split_off = off
     r.split_src = s
     r.split_parts = parts
+    r.split_facts = facts
     return r
 
 
